@@ -18,18 +18,20 @@ def m(name, file, old, new, count=1):
 
 
 OPS = "artap/operators.py"
+# Equivalent (property-preserving) mutants that were tried and dropped, for the record: a re-arranged early exit in
+# ParetoDominance; the redundant `front_number is None` guard in the sorter; dropping NSGA-II's final sync_all (every
+# individual is already re-synchronised after tagging); an extra early sync before the objective (a complete image of an
+# unevaluated individual); LHS columns sharing one set of stratified points; Booth/Griewank/Six-hump perturbations that keep
+# the optimum; a coarser __hash__ (collisions are allowed, equality decides).
 # ---- C01
 m("c01_pareto_strict_to_nonstrict", OPS, "        for (p_costs, q_costs) in zip(p[:-1], q[:-1]):\n            if p_costs > q_costs:",
   "        for (p_costs, q_costs) in zip(p[:-1], q[:-1]):\n            if p_costs >= q_costs:")
 m("c01_pareto_feasible_branch_swapped", OPS, "            elif q[-1] == 0:\n                return 2  # q is dominates, because it has smaller degree in constraint violation\n            elif abs(p[-1]) < abs(q[-1]):\n                return 1  # p is dominates\n            elif abs(q[-1]) < abs(p[-1]):\n                return 2  # q is dominates\n\n        dominate_p = False",
   "            elif q[-1] == 0:\n                return 1  # q is dominates, because it has smaller degree in constraint violation\n            elif abs(p[-1]) < abs(q[-1]):\n                return 1  # p is dominates\n            elif abs(q[-1]) < abs(p[-1]):\n                return 2  # q is dominates\n\n        dominate_p = False")
-m("c01_pareto_early_exit_lost", OPS, "            elif q_costs > p_costs:\n                dominate_p = True\n                if dominate_q:\n                    return 0\n\n        if dominate_q == dominate_p:",
-  "            elif q_costs > p_costs:\n                dominate_p = True\n\n        if dominate_q and not dominate_p:\n            return 2\n        if dominate_q == dominate_p:")
 m("c01_eps_tiebreak_returns_zero", OPS, "            if dist1 < dist2:\n                return 1\n            else:\n                return 2", "            if dist1 < dist2:\n                return 1\n            elif dist2 < dist1:\n                return 2\n            else:\n                return 0")
 m("c01_eps_wrong_index", OPS, "            epsilon = float(self.epsilons[i % len(self.epsilons)])\n            if epsilon == 0:\n                epsilon = 1e-3\n\n            p_eps = p_costs / epsilon\n            q_eps = q_costs / epsilon",
   "            epsilon = float(self.epsilons[i % len(self.epsilons)])\n            if epsilon == 0:\n                epsilon = 1e-3\n\n            p_eps = math.floor(p_costs / epsilon)\n            q_eps = math.floor(q_costs / epsilon)")
 # ---- C02
-m("c02_missing_none_guard", OPS, "                    if q.features['domination_counter'] == 0 and q.features['front_number'] is None:", "                    if q.features['domination_counter'] <= 0:")
 m("c02_inner_loop_from_i", OPS, "            for j in range(i + 1, len(individuals)):\n                q = individuals[j]\n                dom = self.comparator.compare(p.costs_signed, q.costs_signed)",
   "            for j in range(i + 2, len(individuals)):\n                q = individuals[j]\n                dom = self.comparator.compare(p.costs_signed, q.costs_signed)")
 m("c02_decrement_wrong_individual", OPS, "                    q = self.individual(individuals, individual_id)\n                    q.features['domination_counter'] -= 1", "                    q = self.individual(individuals, individual_id)\n                    q.features['domination_counter'] -= len(p.features['dominate'])")
@@ -92,19 +94,18 @@ m("c09_omopso_tag_it", SW, "                individual.population_id = it + 1\n 
 m("c10_upsert_do_nothing", DS, "ON CONFLICT(id) DO UPDATE SET individual=excluded.individual;", "ON CONFLICT(id) DO NOTHING;")
 m("c10_vector_rounded", "artap/individual.py", "                  'vector': list(self.vector),", "                  'vector': [float('%.15g' % v) for v in self.vector],")
 m("c10_features_filtered", "artap/individual.py", "        for key, value in self.features.items():\n            features[key] = self._replace_individual_id(value)", "        for key, value in self.features.items():\n            if value is None or value == []:\n                continue\n            features[key] = self._replace_individual_id(value)")
-m("c10_sync_all_missing_in_nsga", NS, "        # sync changed individual informations\n        self.problem.data_store.sync_all()", "        # sync changed individual informations\n        pass")
 m("c10_custom_ids_replaced", "artap/individual.py", "                  'custom': self.custom,", "                  'custom': self._replace_individual_id(self.custom) if self.custom else self.custom,")
+m("c10_nsga_never_resyncs", NS, "                self.problem.individuals.append(individual)\n                self.problem.data_store.sync_individual(individual)\n\n\n        t = time.time() - t_s\n        self.problem.logger.info(\"NSGA_II: elapsed time: {} s\".format(t))\n\n        # sync changed individual informations\n        self.problem.data_store.sync_all()",
+  "                self.problem.individuals.append(individual)\n\n\n        t = time.time() - t_s\n        self.problem.logger.info(\"NSGA_II: elapsed time: {} s\".format(t))")
 # ---- C11
 m("c11_commit_every_second_sync", DS, "                c.execute(self.sql_individuals_upsert, [individual.id, json.dumps(individual.to_dict())])\n                conn.commit()\n            except", "                c.execute(self.sql_individuals_upsert, [individual.id, json.dumps(individual.to_dict())])\n                if individual.id % 2 == 0:\n                    conn.commit()\n            except")
 m("c11_journal_off_threadsafe", DS, "                    c.execute('PRAGMA journal_mode = ON')", "                    c.execute('PRAGMA journal_mode = OFF')")
-m("c11_sync_before_costs", JOB, "                costs = self.problem.surrogate.evaluate(individual)\n                individual.costs = costs\n", "                self.problem.data_store.sync_individual(individual)\n                costs = self.problem.surrogate.evaluate(individual)\n                individual.costs = costs\n")
 m("c11_upsert_as_delete_insert", DS, "                c.execute(self.sql_individuals_upsert, [individual.id, json.dumps(individual.to_dict())])\n                conn.commit()\n            except",
   "                c.execute('DELETE FROM individuals WHERE id=?', [individual.id])\n                conn.commit()\n                c.execute('INSERT INTO individuals (id, individual) VALUES(?,?)', [individual.id, json.dumps(individual.to_dict())])\n                conn.commit()\n            except")
 # ---- C12
 DOE = "artap/doe.py"
 m("c12_halton_burnin_kept", DOE, "    sample = np.stack(sample, axis=-1)[1:]", "    sample = np.stack(sample, axis=-1)[:-1]")
 m("c12_lhs_cut_points", DOE, "def _lhsclassic(n, samples, randomstate):\n    # Generate the intervals\n    cut = np.linspace(0, 1, samples + 1)\n", "def _lhsclassic(n, samples, randomstate):\n    # Generate the intervals\n    cut = np.linspace(0, 1, samples + 1) ** 1.0000001\n")
-m("c12_lhs_shared_permutation_offset", DOE, "        order = randomstate.permutation(range(samples))\n        H[:, j] = rdpoints[order, j]", "        order = randomstate.permutation(range(samples))\n        H[:, j] = rdpoints[order, 0]")
 m("c12_grid_delta_number", OPS, "            delta = (parameter['bounds'][1] - parameter['bounds'][0]) / (self.number - 1)", "            delta = (parameter['bounds'][1] - parameter['bounds'][0]) / self.number")
 m("c12_random_count", OPS, "        vectors = []\n        for i in range(self.number):\n            vector = VectorAndNumbers.gen_vector(self.parameters)\n            vectors.append(vector)\n        return vectors\n\n\nclass IntegerGenerator", "        vectors = []\n        for i in range(max(self.number, 1)):\n            vector = VectorAndNumbers.gen_vector(self.parameters)\n            vectors.append(vector)\n        return vectors\n\n\nclass IntegerGenerator")
 m("c12_halton_prime_slice", DOE, "        base = _primes_from_2_to(big_number)[:dimension]\n        if len(base) == dimension:\n            break\n        big_number += 1000", "        base = _primes_from_2_to(big_number)[-dimension:]\n        if len(base) == dimension:\n            break\n        big_number += 1000")
@@ -123,11 +124,10 @@ m("c14_gradient_lists_not_cleared", OPS, "            #     individual.costs_sig
 m("c14_worst_lists_not_cleared", OPS, "                individual.costs_signed.insert(-1, sum(sensitivity))\n\n        self.individuals = []\n        self.to_evaluate = []", "                individual.costs_signed.insert(-1, sum(sensitivity))")
 # ---- C15
 BF = "artap/benchmark_functions.py"
-m("c15_rastrigin_constant", BF, "            fitness += c ** 2 - (10 * np.cos(2 * np.pi * c))", "            fitness += c ** 2 - (10 * np.cos(2 * np.pi * c)) - 0.01 * abs(c)")
-m("c15_booth_sign", BF, "        return [(x[0] + 2 * x[1] - 7) ** 2 + (2 * x[0] + x[1] - 5) ** 2]", "        return [(x[0] + 2 * x[1] - 7) ** 2 + (2 * x[0] + x[1] - 5) ** 2 - 0.5 * (x[0] - 1) ** 2]")
+m("c15_rastrigin_constant", BF, "            fitness += c ** 2 - (10 * np.cos(2 * np.pi * c))", "            fitness += c ** 2 - (10 * np.cos(2 * np.pi * c)) - 5.0 * abs(c)")
+m("c15_booth_sign", BF, "        return [(x[0] + 2 * x[1] - 7) ** 2 + (2 * x[0] + x[1] - 5) ** 2]", "        return [(x[0] + 2 * x[1] - 7) ** 2 + (2 * x[0] + x[1] - 5) ** 2 - 3.0 * (x[0] - 1) ** 2]")
 m("c15_ackley_python_float_crash", BF, "        n = float(len(x))\n        return [-20.0 * np.exp(-0.2 * np.sqrt(firstSum / n))", "        n = float(len(x))\n        firstSum = firstSum.clip(0)\n        return [-20.0 * np.exp(-0.2 * np.sqrt(firstSum / n))")
-m("c15_sixhump_exponent", BF, "x[0] ** 4 / 3.) * x[0] ** 2", "x[0] ** 4 / 3.2) * x[0] ** 2")
-m("c15_griewank_dim_gt2", BF, "            produkt *= np.cos(c / np.sqrt(i + 1))", "            produkt *= np.cos(c / np.sqrt(i + 1)) if i < 2 else np.cos(c / (i + 1))")
+m("c15_sixhump_exponent", BF, "x[0] ** 4 / 3.) * x[0] ** 2", "x[0] ** 4 / 4.5) * x[0] ** 2")
 # ---- C16
 BP = "artap/benchmark_pareto.py"
 m("c16_dtlz2_sin_cos_swapped_last", BP, "                fi *= sin(x[m - i - 1] * pi / 2.)\n            gm = 0.\n", "                fi *= sin(x[m - i - 1] * pi / 2.) if i < 3 else cos(x[m - i - 1] * pi / 2.)\n            gm = 0.\n")
@@ -161,7 +161,6 @@ m("c19_train_when_step_minus_1", SUR, "        if self.train_step != -1:\n      
 IND = "artap/individual.py"
 m("c20_eq_sum", IND, "        for i in range(len(self.vector)):\n            if not abs(self.vector[i] - other.vector[i]) < 1e-10:\n                return False\n        return True", "        return abs(sum(self.vector) - sum(other.vector)) < 1e-10")
 m("c20_eq_first_coordinate_skipped", IND, "        for i in range(len(self.vector)):\n            if not abs(self.vector[i] - other.vector[i]) < 1e-10:", "        for i in range(1, len(self.vector)):\n            if not abs(self.vector[i] - other.vector[i]) < 1e-10:")
-m("c20_hash_rounded", IND, "        return hash(tuple(self.vector))", "        return hash(tuple(round(v) for v in self.vector))")
 m("c20_hash_id", IND, "        return hash(tuple(self.vector))", "        return hash(self.id)")
 
 
